@@ -1211,6 +1211,74 @@ def replay_wrap(fd, vals, info):
         v.append(le_bytes(c, 4))
     return {"harness": "m_wrap_step", "values": v}
 
+# ----------------------------------------------------------------------------
+# SPEC: DOM element constructors keep every child, in order (text is not lost or reordered)
+# ----------------------------------------------------------------------------
+
+def spec_dom_constructors(ctx, make_exe):
+    closures = [f for f in ctx.find(r"^process_dom_node::\{closure#\d+\}$")
+                if len(f.args) == 3 and "Vec<RenderNode>" in f.args[2][1] and "HtmlContext" in f.args[1][1]]
+    if len(closures) < 15:
+        raise Inconclusive("expected the element constructor closures of process_dom_node, found %d" % len(closures))
+    total = 0
+    checked = 0
+    for f in closures:
+        exe = make_exe(inline=[r"RenderNode::new_styled$", r"RenderNode::new$"], loop_bound=8)
+        kids = [VOpaque("RenderNode", "child%d" % k) for k in range(3)]
+        empties = {}
+        import summaries
+        orig = summaries.summarize
+
+        def summ(exe_, st_, f_, bb_, callee, args, dest_ty, empties=empties):
+            c = callee.strip()
+            if re.search(r"RenderNode::is_shallow_empty$", c):
+                node = args[0]
+                if isinstance(node, VRef):
+                    node = exe_.deref(st_, node)
+                key = getattr(node, "name", "?")
+                if key not in empties:
+                    empties[key] = exe_.fresh("bool", key + ".shallow_empty")
+                return [(st_, empties[key])]
+            if re.search(r"as FnOnce<.*>>::call_once$", c):
+                return None
+            return orig(exe_, st_, f_, bb_, callee, args, dest_ty)
+        summaries.summarize = summ
+        try:
+            outs = exe.run(f.name, {3: VVec(kids)}, State())
+        finally:
+            summaries.summarize = orig
+        total += len(outs)
+        wraps_inner = any(re.search(r"call_once", h) for h in exe.stats.havoc)
+        if wraps_inner:
+            continue  # fragment / pseudo-content wrappers call the inner constructor through a boxed FnOnce
+        checked += 1
+        uses_filter = any("filter" in c0[0] for (s2, _) in outs for c0 in s2.calls)
+        for (s2, ret) in outs:
+            val = ret
+            if isinstance(val, VAgg) and val.variant in ("Ok",):
+                val = val.fields[0]
+            if isinstance(val, VAgg) and val.variant == "None":
+                # dropping everything is only allowed for links whose children are all (shallow) empty
+                if empties:
+                    allempty = z3.And(*[empties.get("child%d" % k, VBool(z3.BoolVal(False))).e for k in range(3)])
+                    post(exe, s2, allempty, f.name, "a link is dropped only when every child is empty")
+                else:
+                    post(exe, s2, z3.BoolVal(False), f.name, "an element with children is not dropped")
+                continue
+            seq = [n for n in _flatten_nodes(ctx, val) if n.startswith("child")]
+            want = ["child0", "child1", "child2"]
+            if uses_filter:
+                ok = seq == [w for w in want if w in seq] and len(seq) == len(set(seq))
+                post(exe, s2, z3.BoolVal(ok), f.name, "filtered children keep their order and are not duplicated (got %s)" % seq)
+            else:
+                post(exe, s2, z3.BoolVal(seq == want), f.name, "all children are kept, in order (got %s)" % seq)
+            if empties:
+                anyfull = z3.Or(*[z3.Not(empties.get("child%d" % k, VBool(z3.BoolVal(True))).e) for k in range(3)])
+                post(exe, s2, anyfull, f.name, "a link is kept only when some child is non-empty")
+    if checked < 15:
+        raise Inconclusive("only %d constructor closures could be checked" % checked)
+    return {"closures_checked": checked, "paths": total}
+
 
 ALL = [
     Spec("table_col_width", ["C06", "C02", "C01"], spec_table_col_width,
@@ -1275,6 +1343,12 @@ ALL = [
          functions=["WrappedBlock::add_text (preserve-whitespace branch, tab-stop loop)", "WrappedBlock::flush_word", "WrappedBlock::flush_line"],
          bounds="any valid block state with width <= 2^20 (including 0), then one character from {a, space, newline, tab, wide CJK}; pre and pre-wrap modes; loop bound 28",
          assumptions=["as wrap_flush_word"], replay=replay_wrap),
+    Spec("dom_constructors", ["C03", "C08"], spec_dom_constructors,
+         functions=["process_dom_node::{closure#N} for every element kind (the reducers that build the render node from the children)"],
+         bounds="three opaque children per element; shallow emptiness of each child an arbitrary boolean",
+         assumptions=["children are opaque nodes; is_shallow_empty returns an arbitrary boolean per child",
+                      "the id / pseudo-content wrappers (which call the inner constructor through a boxed FnOnce) are skipped"],
+         replay=lambda fd, vals, info: {"harness": "m_dom_children", "values": [[0]]}),
     Spec("table_alloc_2col", ["C06", "C02", "C01", "C03"], spec_table_alloc_2,
          functions=["render_table_tree (whole function incl. estimate loop, allocation closures, shrink loop)",
                     "RenderTable::rows", "RenderTableRow::cells", "RenderTableCell::get_size_estimate", "SizeEstimate::max",
